@@ -167,7 +167,8 @@ fn run_child(op: &str, n: usize) -> Result<(), String> {
         return Ok(());
     }
     let err = String::from_utf8_lossy(&out.stderr);
-    let last: String = err.lines().rev().take(3).collect::<Vec<_>>().into_iter().rev().collect::<Vec<_>>().join(" | ");
+    // (thread ids and addresses differ from run to run: digits are left out so that the same failure gives the same record)
+    let last: String = err.lines().rev().take(3).collect::<Vec<_>>().into_iter().rev().collect::<Vec<_>>().join(" | ").chars().filter(|c| !c.is_ascii_digit()).collect();
     Err(match out.status.code() {
         Some(3) => format!("panicked: {last}"),
         Some(c) => format!("exited with status {c}: {last}"),
